@@ -148,13 +148,23 @@ def _readfile(I, st, args):
     return Tup((I.new_slice(st, 'uint8', tuple(e[1])), None))
 
 
-def fileinfo(I, st, isdir):
-    return Iface('*verif.fileInfo', Opaque('fileinfo', isdir))
+def fileinfo(I, st, isdir, size=0):
+    return Iface('*verif.fileInfo', Opaque('fileinfo', (isdir, size)))
 
 
 @model(('*verif.fileInfo', 'IsDir'))
 def _fi_isdir(I, st, args):
-    return args[0].data
+    return args[0].data[0]
+
+
+@model(('*verif.fileInfo', 'Size'))
+def _fi_size(I, st, args):
+    return args[0].data[1]
+
+
+@model(('*verif.fileInfo', 'Mode'))
+def _fi_mode(I, st, args):
+    return (0x80000000 | 0o755) if args[0].data[0] else 0o644
 
 
 @model('os.Stat', 'os.Lstat')
@@ -169,7 +179,7 @@ def _stat(I, st, args):
     e = fs(st).get(c)
     if e is None:
         return Tup((None, err(I, st, 'stat: no such file or directory')))
-    return Tup((fileinfo(I, st, e[0] == 'dir'), None))
+    return Tup((fileinfo(I, st, e[0] == 'dir', len(e[1]) if e[0] == 'file' else 4096), None))
 
 
 def mkfile(I, st, path, mode, pathstr):
@@ -256,8 +266,17 @@ def _rename(I, st, args):
         return err(I, st, 'rename: directory not empty')
     if not parent_ok(st, b):
         return err(I, st, 'rename: no such file or directory')
-    fs_set(st, a, None)
-    fs_set(st, b, e)
+    d = {}
+    for k, v in fs(st).items():
+        if k == a:
+            d[b] = v
+        elif k == b:
+            continue                         # the target is replaced
+        elif k.startswith(a + b'/'):
+            d[b + k[len(a):]] = v          # a directory takes its contents along
+        else:
+            d[k] = v
+    st.aux['fs'] = d
     return None
 
 
